@@ -25,6 +25,9 @@ every finite history of public mutating operations on any number of instances ob
   while a property computed from it stays stored.  `C07_stale_dependant_witness` shows the full statement is
   false for the code as it is; the harness replays that witness on the real code (KNOWN-FINDING).
 * `C07_dataclass_*`                          the same for the attribute-based `DataClass`.
+* `C07_accessor_own`, `C07_dataclass_setattr_inherited`, `C07_dataclass_delattr_inherited`,
+  `C07_schema_setattr_inherited`             inheritance: the attribute of a field (declared, narrowed or inherited) reaches the
+  accessor bound to the instance's own class — own field declaration, own options — whatever the bases carry.
 * `C07_legacy_*_witness`                     the behaviour before `fixes/C07-mutators.patch` (model flag `lg = true`)
   violates `Valid`: the five preliminary findings, as kernel-checked counter-examples.
 
@@ -530,6 +533,76 @@ theorem C07_dataclass_immutable (hwf : WF C) {f : Field} (hf : f ∈ C.fields) (
             simp [get_del, hna]
   | _ => rfl
 
+/-! ### inheritance: an attribute name reaches the accessor of the instance's own class -/
+
+theorem own_find_none {a : String} (h : fieldByAtt C a = none) :
+    (assignProperties C).find? (fun x => x.attname == a) = none := by
+  rw [List.find?_eq_none]
+  intro x hx
+  simp only [assignProperties, List.mem_map, List.mem_filter] at hx
+  obtain ⟨g, ⟨hg, _⟩, rfl⟩ := hx
+  simpa using fieldByAtt_none h hg
+
+/-- **C07 (inheritance).**  Whatever accessors the base classes carry, the attribute of a field — declared
+in the class body, narrowed there, or merely inherited — reaches the accessor bound to the class's own field
+declaration and own options. -/
+theorem C07_accessor_own (hwf : WF C) (bases : List (List Accessor)) {f : Field} (hf : f ∈ C.fields)
+    (hp : f.isProp = false) :
+    resolveAccessor (assignProperties C :: bases) f.attname = some { attname := f.attname, field := f, opts := C.opts } := by
+  have hmem : ({ attname := f.attname, field := f, opts := C.opts } : Accessor) ∈ assignProperties C := by
+    simp only [assignProperties, List.mem_map, List.mem_filter]
+    exact ⟨f, ⟨hf, by simp [hp]⟩, rfl⟩
+  simp only [resolveAccessor]
+  cases h : (assignProperties C).find? (fun x => x.attname == f.attname) with
+  | none =>
+    have := List.find?_eq_none.mp h _ hmem
+    simp at this
+  | some x =>
+    have hx := List.mem_of_find?_eq_some h
+    have hxa : x.attname = f.attname := by simpa using List.find?_some h
+    simp only [assignProperties, List.mem_map, List.mem_filter] at hx
+    obtain ⟨g, ⟨hg, _⟩, rfl⟩ := hx
+    have : g = f := att_inj hwf hg hf hxa
+    subst this
+    rfl
+
+/-- **C07 (inheritance, DataClass).**  Attribute assignment and deletion on an instance of a derived class
+behave as the class's own declaration says (`dcSetattr`, `dcDelattr` — what `C07_dataclass_*` are about),
+independently of the base classes' accessors. -/
+theorem C07_dataclass_setattr_inherited (hwf : WF C) (hnp : ∀ f ∈ C.fields, f.isProp = false)
+    (bases : List (List Accessor)) (hb : ∀ a, fieldByAtt C a = none → resolveAccessor bases a = none)
+    (s : State V) (a : String) (v : V) :
+    dcSetattrVia (assignProperties C :: bases) W s a v = dcSetattr C W s a v := by
+  unfold dcSetattrVia dcSetattr
+  cases hfa : fieldByAtt C a with
+  | none => simp [resolveAccessor, own_find_none hfa, hb a hfa]
+  | some f =>
+    obtain ⟨hf, rfl⟩ := fieldByAtt_some hfa
+    rw [C07_accessor_own hwf bases hf (hnp f hf)]
+    rfl
+
+theorem C07_dataclass_delattr_inherited (hwf : WF C) (hnp : ∀ f ∈ C.fields, f.isProp = false)
+    (bases : List (List Accessor)) (hb : ∀ a, fieldByAtt C a = none → resolveAccessor bases a = none)
+    (s : State V) (a : String) :
+    dcDelattrVia (assignProperties C :: bases) s a = dcDelattr C s a := by
+  unfold dcDelattrVia dcDelattr
+  cases hfa : fieldByAtt C a with
+  | none => simp [resolveAccessor, own_find_none hfa, hb a hfa]
+  | some f =>
+    obtain ⟨hf, rfl⟩ := fieldByAtt_some hfa
+    rw [C07_accessor_own hwf bases hf (hnp f hf)]
+    rfl
+
+/-- **C07 (inheritance, Schema).**  The attribute path of a declared field of a derived Schema is the
+model's `setattr`, i.e. it converts with the class's own field (and the item path never used accessors). -/
+theorem C07_schema_setattr_inherited (hwf : WF C) (bases : List (List Accessor)) (s : State V) {a : String}
+    {f : Field} (hfa : fieldByAtt C a = some f) (hp : f.isProp = false) (v : V) :
+    setattrVia (assignProperties C :: bases) C W s a v = setattr C W s a v := by
+  obtain ⟨hf, rfl⟩ := fieldByAtt_some hfa
+  unfold setattrVia setattr
+  rw [C07_accessor_own hwf bases hf hp, hfa]
+  simp [hp]
+
 end Utv.C07
 
 /-! ### non-vacuity, the known defect, and the behaviour before the repair (kernel-checked witnesses) -/
@@ -663,6 +736,15 @@ theorem C07_stale_dependant_witness :
   intro h
   have := (h fP (by decide) rfl 2 (by decide)).1
   exact absurd this (by decide)
+
+/-- Why `C07_accessor_own` matters: a subclass `K'` narrows `b` (its converter accepts only 0..9) and
+is declared immutable.  Through its own accessor table an invalid / any assignment is refused; were the base's
+accessor reached instead (base table first), the value would be stored in an instance of `K'`. -/
+def fB' : Field := { fB with required := false }
+def C₀' : Cls := { fields := [fB', fC, fM, fP], opts := { addition := .typed, immutable := true } }
+
+example : (dcSetattrVia [assignProperties C₀', assignProperties C₀] W₀ s₀₀ "b" 7).2 = .err .update := by decide
+example : (dcSetattrVia [assignProperties C₀] W₀ s₀₀ "b" 7).1.attrs.get "b" = some 7 := by decide
 
 /-! the behaviour before `fixes/C07-mutators.patch` (`lg = true`) -/
 
